@@ -31,6 +31,9 @@ var ErrUnreachable = errors.New("verif: node unreachable")
 type Fault func(target uint64, method string) int
 
 type Ring struct {
+	// Interval of the nodes' background tasks and retry delays (default 1h = tasks never fire, the
+	// harness drives them explicitly); C07 uses milliseconds and lets the real timers run.
+	Interval time.Duration
 	// paused join (C09): the joiner's goroutine blocks at its first cross-node call after
 	// RequestToJoin returned, i.e. with neighbour pointers assigned and an empty finger table
 	pauseArmed bool
@@ -60,9 +63,9 @@ func (r *Ring) New(id uint64) *impl.LocalNode {
 		ChordClient:              new(mocks.ChordClient),
 		Identity:                 &protocol.Node{Id: id, Address: "n" + strconv.FormatUint(id, 10)},
 		KVProvider:               memory.WithHashFn(chord.Hash),
-		StabilizeInterval:        time.Hour,
-		FixFingerInterval:        time.Hour,
-		PredecessorCheckInterval: time.Hour,
+		StabilizeInterval:        r.interval(),
+		FixFingerInterval:        r.interval(),
+		PredecessorCheckInterval: r.interval(),
 		NodesRTT:                 m,
 	})
 	r.mu.Lock()
@@ -70,6 +73,13 @@ func (r *Ring) New(id uint64) *impl.LocalNode {
 	r.wraps[id] = &W{inner: n, r: r}
 	r.mu.Unlock()
 	return n
+}
+
+func (r *Ring) interval() time.Duration {
+	if r.Interval > 0 {
+		return r.Interval
+	}
+	return time.Hour
 }
 
 func (r *Ring) Node(id uint64) *impl.LocalNode { r.mu.Lock(); defer r.mu.Unlock(); return r.nodes[id] }
